@@ -178,6 +178,11 @@ uchar *StringDictionaryXBW::extract(size_t id, uint *strLen) {
 }
 
 IteratorDictID *StringDictionaryXBW::locatePrefix(uchar *str, uint strLen) {
+  // An empty pattern selects the artificial root, which the iterators cannot
+  // enumerate (it is its own child): no result
+  if (strLen == 0)
+    return new IteratorDictIDContiguous(NORESULT, NORESULT);
+
   uchar *qry = new uchar[strLen + 1];
   qry[0] = 0;
   strncpy((char *)qry + 1, (char *)str, strLen);
@@ -195,6 +200,9 @@ IteratorDictID *StringDictionaryXBW::locatePrefix(uchar *str, uint strLen) {
 }
 
 IteratorDictID *StringDictionaryXBW::locateSubstr(uchar *str, uint strLen) {
+  if (strLen == 0)
+    return new IteratorDictIDContiguous(NORESULT, NORESULT);
+
   uint left, right;
   xbw->subPathSearch(str, strLen, &left, &right);
 
@@ -208,6 +216,9 @@ uint StringDictionaryXBW::locateRank(uint rank) { return rank; }
 
 IteratorDictString *StringDictionaryXBW::extractPrefix(uchar *str,
                                                        uint strLen) {
+  if (strLen == 0)
+    return NULL;
+
   uchar *qry = new uchar[strLen + 2];
   qry[0] = 0;
   strncpy((char *)qry + 1, (char *)str, strLen);
@@ -222,6 +233,9 @@ IteratorDictString *StringDictionaryXBW::extractPrefix(uchar *str,
 
 IteratorDictString *StringDictionaryXBW::extractSubstr(uchar *str,
                                                        uint strLen) {
+  if (strLen == 0)
+    return NULL;
+
   uint left, right;
   xbw->subPathSearch(str, strLen, &left, &right);
 
